@@ -209,6 +209,41 @@ def accessor_clash_workspace(rng):
     return ws
 
 
+def local_like_module_workspace(rng):
+    """a LOCAL spelled like an imported module: `import user.{type User, User}` and a value `user` bound by `let`, by a
+    clause pattern, as an annotated lambda parameter and as a function parameter; `user.name` on it is the record FIELD,
+    while `user.name(..)` where no local is in scope is the module's FUNCTION of the same name.  Occurrences known by construction."""
+    mod = rng.choice(["user", "item", "node"])
+    ty = mod.capitalize()
+    f1, f2 = rng.sample(["name", "label", "size"], 2)
+    lib = (f"pub type {ty} {{\n  {ty}({f1}: String, {f2}: Int)\n}}\n\n"
+           f"pub fn {f1}(v: {ty}) {{\n  v.{f1}\n}}\n\npub fn {f2}_of(v: {ty}) {{\n  v.{f2}\n}}\n")
+    main = (f"import {mod}.{{type {ty}, {ty}}}\n\n"
+            f"pub fn by_let() {{\n  let {mod} = {ty}(\"a\", 1)\n  {mod}.{f1}\n}}\n\n"
+            f"pub fn by_nested_let() {{\n  let {mod} = {ty}(\"b\", 2)\n  {{\n    let n = {mod}.{f2}\n    #(n, {mod}.{f1})\n  }}\n}}\n\n"
+            f"pub fn by_clause() {{\n  case {ty}(\"c\", 3) {{\n    {mod} -> {mod}.{f1}\n  }}\n}}\n\n"
+            f"pub fn by_lambda() {{\n  fn({mod}: {ty}) {{ {mod}.{f1} }}\n}}\n\n"
+            f"pub fn by_param({mod}: {ty}) {{\n  {mod}.{f1}\n}}\n\n"
+            f"pub fn qualified() {{\n  {mod}.{f1}({ty}(\"d\", 4))\n}}\n")
+    files = [(f"/w/p/src/{mod}.gleam", lib), ("/w/p/src/main.gleam", main), ("/w/p/gleam.toml", 'name = "p"\n')]
+    ws = PlainWs(files)
+    def at(fi, text, needle, k=0, nth=0):
+        i = -1
+        for _ in range(nth + 1):
+            i = text.index(needle, i + 1)
+        return (fi, len(text[:i + k].encode("utf-8")))
+    nacc = main.count(f"{mod}.{f1}") - 1          # all but the qualified call (the last one)
+    # recorded finding: the annotation of a lambda parameter is ignored by inference (the repository's own failing test
+    # infer_annotated_lambda), so the field access on it is not resolved and the name falls through to the module
+    ws.known = {at(1, main, f"{{ {mod}.{f1} }}", 3 + len(mod)): "lambda-parameter-spelled-like-module"}
+    ws.groups = [
+        (f1, [at(0, lib, f"({f1}: String", 1), at(0, lib, f"v.{f1}", 2)] + [at(1, main, f"{mod}.{f1}", len(mod) + 1, n) for n in range(nacc)]),
+        (f1, [at(0, lib, f"fn {f1}(", 3), at(1, main, f"{mod}.{f1}(", len(mod) + 1)]),
+        (f2, [at(0, lib, f", {f2}: Int", 2), at(0, lib, f"v.{f2}", 2), at(1, main, f"{mod}.{f2}", len(mod) + 1)]),
+    ]
+    return ws
+
+
 def namespace_clash_workspace(rng):
     """one local name imported twice: as a type from one module (`import shape.{type T}`) and as a value from another module
     that also declares a public type of that name (`import token.{T}`, token has `pub type T { T }`), in either order.
@@ -348,16 +383,21 @@ def run_expected_groups(res, prop, wss):
             decl = group[0]
             others = [m for gj, (_, g2) in enumerate(ws.groups) if gj != gi for m in g2]
             replay = {"files": ws.files, "group": group, "name": name}
+            known = getattr(ws, "known", {})
             for (f, o) in group:
                 t = parse_target(a[k]); k += 1
                 if t is None or (t[0], t[1]) != decl:
-                    res.add_violation(f"{prop}/expected-occurrence-unresolved",
+                    res.add_violation(f"{prop}/" + known.get((f, o), "expected-occurrence-unresolved"),
                                       f"occurrence of field `{name}` at file {f} offset {o} does not lead to its declaration (answer {a[k - 1][:60]})", replay)
             R = parse_refs(a[k]); k += 1
             Rs = {(f, s) for (f, s, e) in R} if R else set()
             if prop == "C06":
                 miss = [m for m in group if m not in Rs]
                 extra = [m for m in others if m in Rs]
+                for m in [m for m in miss + extra if m in known]:
+                    res.add_violation(f"C06/{known[m]}", f"references of `{name}`: the occurrence {m} is {'missing' if m in miss else 'listed for another symbol of that name'}", replay)
+                miss = [m for m in miss if m not in known]
+                extra = [m for m in extra if m not in known]
                 if miss:
                     res.add_violation("C06/expected-occurrence-missing-from-references", f"references of field `{name}` lack the occurrence(s) {miss[:3]}", replay)
                 if extra:
@@ -374,6 +414,10 @@ def run_expected_groups(res, prop, wss):
                             edits.add((int(f), int(r.split("-")[0])))
                     miss = [m for m in group if m not in edits]
                     extra = [m for m in others if m in edits]
+                    for m in [m for m in miss + extra if m in known]:
+                        res.add_violation(f"C07/{known[m]}", f"rename of `{name}`: the occurrence {m} is {'left behind' if m in miss else 'rewritten although it denotes another symbol of that name'}", replay)
+                    miss = [m for m in miss if m not in known]
+                    extra = [m for m in extra if m not in known]
                     if miss:
                         res.add_violation("C07/expected-occurrence-not-renamed", f"rename of field `{name}` leaves the occurrence(s) {miss[:3]} behind", replay)
                     if extra:
@@ -391,9 +435,19 @@ def run_c06(res, tier, seed):
     wss += [lookalike_workspace(rrng) for _ in range(4 if tier == "quick" else 40)]
     wss += [rebind_workspace(rrng) for _ in range(3 if tier == "quick" else 30)]
     wss += [namespace_clash_workspace(rrng) for _ in range(3 if tier == "quick" else 30)]
+    wss += [local_like_module_workspace(rrng) for _ in range(3 if tier == "quick" else 30)]
     wss += [long_module_workspace(rrng) for _ in range(2 if tier == "quick" else 12)]
     wss += [accessor_clash_workspace(rrng) for _ in range(3 if tier == "quick" else 30)]
     wss += [variant_label_workspace(rrng) for _ in range(6 if tier == "quick" else 60)]
+    # the same single-module workspaces as a FREE-STANDING file: a source root of its own (the file itself, as the server does for a
+    # module with no gleam.toml above it) that belongs to no package of the graph
+    import copy
+    singles = [w for w in wss[:n_ws] if len(w.files) == 2 and not getattr(w, "roots", None)]
+    for w in singles[: (10 if tier == "quick" else 120)]:
+        f = copy.copy(w)
+        f.roots = [(w.files[0][0], [0]), ("/w/p", [1])]
+        f.pkgs = [("p", 1, 1, [])]
+        wss.append(f)
     run_expected_groups(res, "C06", wss)
     all_toks = stage1(wss)
     # group tokens by definition
